@@ -263,3 +263,52 @@ Fixpoint write_all_t (cfg : wcfg) (keys : list bytes) (sent : bool) (ops : list 
       let '(wire', es) := write_all_t cfg keys' sent' ops' in
       (wire ++ wire', e :: es)
   end.
+
+(* ---- a writer the application left open ("abandoned"): NextWriter + writes, no Close.
+   beginMessage (NextWriter and WriteMessage) closes it first, i.e. finishes its message; WriteControl
+   and WritePreparedMessage do not go through beginMessage and leave it open. *)
+Inductive xop :=
+| XOp (z : bool) (o : wop)                 (* an operation as above, z = EnableWriteCompression flag in force *)
+| XOpen (typ : N) (cs : list chunk).       (* c.NextWriter(typ) + writes, the writer is NOT closed *)
+
+Definition begins_message (o : wop) : bool :=
+  match o with OpMessage _ _ | OpStream _ _ | OpZ _ _ _ => true | _ => false end.
+
+(* c.writer.Close() of the writer left open; its error is ignored *)
+Definition close_open (cfg : wcfg) (keys : list bytes) (open : option mw) : bytes * list bytes :=
+  match open with
+  | None => ([], keys)
+  | Some w => match flush_frame cfg keys w true [] with
+              | inl (fr, keys', _) => (fr, keys')
+              | inr _ => ([], keys)
+              end
+  end.
+
+Fixpoint write_all_o (cfg : wcfg) (keys : list bytes) (sent : bool) (open : option mw) (ops : list xop)
+  : bytes * list (option werr) :=
+  match ops with
+  | [] => ([], [])
+  | x :: ops' =>
+      let begins := match x with XOp _ o => begins_message o | XOpen _ _ => true end in
+      let '(pre, keys1) := if begins && negb sent then close_open cfg keys open else ([], keys) in
+      let open1 := if begins then None else open in
+      match x with
+      | XOp z o =>
+          let cfg' := mkWcfg (wc_server cfg) (wc_buf cfg) (wc_compress cfg && z) in
+          let '(wire, keys2, sent', e) := write_op cfg' keys1 sent o in
+          let '(wire', es) := write_all_o cfg keys2 sent' open1 ops' in
+          (pre ++ wire ++ wire', e :: es)
+      | XOpen typ cs =>
+          if sent then
+            let '(wire', es) := write_all_o cfg keys1 sent None ops' in (pre ++ wire', Some WeCloseSent :: es)
+          else if negb (is_control_type typ) && negb (is_data_type typ) then
+            let '(wire', es) := write_all_o cfg keys1 sent None ops' in (pre ++ wire', Some WeBadType :: es)
+          else
+            match feed_all cfg keys1 (mkMw [] typ false) cs [] with
+            | inl (wire, keys2, w) =>
+                let '(wire', es) := write_all_o cfg keys2 sent (Some w) ops' in (pre ++ wire ++ wire', None :: es)
+            | inr e =>
+                let '(wire', es) := write_all_o cfg keys1 sent None ops' in (pre ++ wire', Some e :: es)
+            end
+      end
+  end.
